@@ -187,11 +187,32 @@ def zsign(e):
     return S(z3.If(z > 0, z3.RealVal(1), z3.If(z < 0, z3.RealVal(-1), z3.RealVal(0))), dof(e))
 
 
+def _resolved(a, b):
+    """opt-in (CTX.resolve_minmax): is a <= b / a >= b implied by the preconditions and the path condition?  -> 'le', 'ge' or None.
+    Replaces an if-then-else term by one of its branches where the other one is infeasible (e.g. s*c1+t vs s*c2+t with s > 0)."""
+    if not getattr(CTX, "resolve_minmax", False):
+        return None
+    za, zb = toz(a), toz(b)
+    if CTX.check(list(CTX.pc) + [za > zb], timeout=400) == "unsat":
+        return "le"
+    if CTX.check(list(CTX.pc) + [za < zb], timeout=400) == "unsat":
+        return "ge"
+    return None
+
+
 def zmin(a, b):
+    r = _resolved(a, b)
+    if r is not None:
+        x = a if r == "le" else b
+        return S(toz(x), AND(dof(a), dof(b)))
     return S(z3.If(toz(a) <= toz(b), toz(a), toz(b)), AND(dof(a), dof(b)))
 
 
 def zmax(a, b):
+    r = _resolved(a, b)
+    if r is not None:
+        x = b if r == "le" else a
+        return S(toz(x), AND(dof(a), dof(b)))
     return S(z3.If(toz(a) >= toz(b), toz(a), toz(b)), AND(dof(a), dof(b)))
 
 
